@@ -430,7 +430,8 @@ def prebuild(ctx):
     c14d_part.prebuild(ctx)
     c14g_part.prebuild(ctx)
     c14l_part.prebuild(ctx)
-    from vlib import c14mm_part, c14_sccp, c14c_part
+    from vlib import c14mm_part, c14_sccp, c14c_part, c14_isel
+    c14_isel.prebuild(ctx)
     c14mm_part.prebuild(ctx)
     c14_sccp.prebuild(ctx)
     c14c_part.prebuild(ctx)
@@ -954,7 +955,10 @@ def run(ctx):
     ctx.log(f"passes {time.time()-t:.0f}s"); t = time.time()
     from vlib import c14_fixvenom
     total += c14_fixvenom.part_fixvenom(ctx)
-    ctx.log(f"rangefix/venom link {time.time()-t:.0f}s")
+    ctx.log(f"rangefix/venom link {time.time()-t:.0f}s"); t = time.time()
+    from vlib import c14_isel
+    total += c14_isel.part_isel(ctx)
+    ctx.log(f"instruction selection {time.time()-t:.0f}s")
     ctx.corr.setdefault("evaluations", 0)
     ctx.corr["evaluations"] += total
     ctx.corr["distinct_nontrivial"] = total
